@@ -49,6 +49,26 @@ def decide_equal(ctx, name, config, fn_impl, fn_spec, arg_shapes, logic='QF_UFLR
                   f'{name}: output structure/shape {shapes_i} differs from the sequential definition {shapes_s}')
     ctx.clause(name, 'failed', config=config, queries=0)
     return False
+  # call-history independence: a second trace of the same implementation (same underlying objects) must give the same program
+  try:
+    ci2 = jax.make_jaxpr(lambda *a_: fn_impl(*a_))(*ex)
+    hist = harness._jaxpr_differs(ci, ci2)
+  except Exception as e_:  # noqa: BLE001
+    hist = f'second evaluation raised {type(e_).__name__}: {e_}'
+  if hist:
+    rng = np.random.default_rng(0)
+    conc = replay_args or [rng.uniform(-1, 1, shp) for shp in arg_shapes]
+    try:
+      r1 = jax.tree_util.tree_leaves(fn_impl(*conc)); r2 = jax.tree_util.tree_leaves(fn_impl(*conc))
+      d = max((float(np.abs(np.asarray(a) - np.asarray(b)).max(initial=0.0)) if np.shape(a) == np.shape(b) else float('inf')) for a, b in zip(r1, r2))
+    except Exception as e_:  # noqa: BLE001
+      d = float('inf'); hist += f' (replay raised {type(e_).__name__})'
+    rs = jax.tree_util.tree_leaves(fn_spec(*conc))
+    d_spec = max((float(np.abs(np.asarray(a) - np.asarray(b)).max(initial=0.0)) if np.shape(a) == np.shape(b) else float('inf')) for a, b in zip(jax.tree_util.tree_leaves(fn_impl(*conc)), rs)) if rs else 0.0
+    ctx.violation(name + '.repeatable', dict(config=config, kind='history_dependent', detail=hist), dict(inputs=[np.asarray(c).tolist() for c in conc], difference_between_two_calls=d, difference_to_definition_on_a_later_call=d_spec),
+                  f'{name}: the result depends on the call history ({hist}); a later call differs from the sequential definition by {d_spec:.3e}')
+    ctx.clause(name + '.repeatable', 'failed', config=config, queries=0)
+    return False
   oi = Interp(sp).run(ci, *args); os_ = Interp(sp).run(cs, *args)
   fi, fs = _flat(oi), _flat(os_)
   assert len(fi) == len(fs)
@@ -125,9 +145,13 @@ def task_trajectory(ctx, outer, inner, start_with_input, nfilters):
   ctx.encoded(ti.trajectory_from_step, ti.repeated, ti.step_with_filters)
   filters = [filt(k) for k in range(nfilters)]
 
+  # built ONCE, as a user would: the filtered step and the trajectory function must be reusable (decide_equal traces impl a second time and
+  # compares the two programs)
+  s_once = ti.step_with_filters(step, filters) if filters else step
+  traj_once = ti.trajectory_from_step(s_once, outer, inner, start_with_input=start_with_input, post_process_fn=post)
+
   def impl(a, b):
-    s = ti.step_with_filters(step, filters) if filters else step
-    final, frames = ti.trajectory_from_step(s, outer, inner, start_with_input=start_with_input, post_process_fn=post)((a, b))
+    final, frames = traj_once((a, b))
     return final, frames
 
   def one(u):
@@ -149,6 +173,17 @@ def task_trajectory(ctx, outer, inner, start_with_input, nfilters):
     return u, jnp.stack(frames)
   decide_equal(ctx, 'trajectory_from_step.equals_sequential_loop', dict(outer=outer, inner=inner, start_with_input=start_with_input, filters=nfilters),
                impl, spec, [(2,), (2,)], logic='QF_UF')
+  # the SAME trajectory function applied to a state of another shape (forces jax to trace the filtered step again: scan bodies are cached per
+  # function object and input shapes) and the SAME filtered step applied three times at Python level
+  decide_equal(ctx, 'trajectory_from_step.equals_sequential_loop', dict(outer=outer, inner=inner, start_with_input=start_with_input, filters=nfilters, reuse='same trajectory function, state of another shape'),
+               impl, spec, [(3,), (3,)], logic='QF_UF')
+
+  def impl3(a, b):
+    return s_once(s_once(s_once((a, b))))
+
+  def spec3(a, b):
+    return one(one(one((a, b))))
+  decide_equal(ctx, 'step_with_filters.step_function_is_reusable', dict(filters=nfilters, applications=3), impl3, spec3, [(2,), (2,)], logic='QF_UF')
 
 
 def task_repeated(ctx):
